@@ -60,7 +60,8 @@ def rotation_set(rng, name):
         return None, [Rotation.identity()]
     if name == "single":   # K = 1, but not the identity
         r = gen.small_rotation(rng, 18, 40)
-        return (Rotation.from_quat(r.as_quat()[None]) if rng.random() < 0.5 else [r]), [r]
+        u = rng.random()   # the three spellings of a one-member set: stacked Rotation of length 1, list, single Rotation
+        return (Rotation.from_quat(r.as_quat()[None]) if u < 0.35 else [r] if u < 0.7 else r), [r]
     if name == "quarter":
         rots = [Rotation.identity(), Rotation.from_rotvec([np.pi / 2, 0, 0]), Rotation.from_rotvec([-np.pi / 2, 0, 0]),
                 Rotation.from_rotvec([0, 0, np.pi / 2])]
